@@ -125,19 +125,30 @@ Fixpoint drawn_before (rows : list (list spx)) (seen : list (list (list spx) * l
    be the encoding of the view under the observed strip order.  Specification side: EVERY
    draw must decode to the view it was given, and a draw of a view whose content was drawn
    before must repeat those bytes. *)
+(* what was done to the handler: a draw (image number, bytes written, then the accounted cache
+   size and number of entries, read through the verif-hooks accessor), or the hook that
+   overrides the accounted size so that the eviction loop is reached *)
+Inductive dop :=
+| DDraw (k : nat) (bytes : list N) (size : N) (entries : nat)
+| DSize (n : N).
+
 Fixpoint run_draws (imgs : list (list (list spx) * N)) (st : hstate)
          (seen : list (list (list spx) * list N))
-         (draws : list (nat * list N)) : bool * bool :=
+         (draws : list dop) : bool * bool :=
   match draws with
   | [] => (true, true)
-  | (k, impl) :: r =>
+  | DSize n :: r =>
+      (* from here on entries may be evicted: a re-encoded image may use another strip order,
+         so the specification side only asks that every draw decodes to its view *)
+      run_draws imgs (fst st, n) [] r
+  | DDraw k impl size entries :: r =>
       let '(rows, key) := nth k imgs ([], 0) in
+      let st' := snd (hdraw sixel_cache_limit st key (match impl with [] => None | _ => Some impl end)) in
       let a :=
         match c_find key (fst st) with
         | Some bytes => nlist_eqb bytes impl
         | None => first_draw_agrees rows impl
-        end in
-      let st' := snd (hdraw sixel_cache_limit st key (match impl with [] => None | _ => Some impl end)) in
+        end && (snd st' =? size) && Nat.eqb (length (fst st')) entries in
       let h :=
         match drawn_before rows seen with
         | Some bytes => nlist_eqb bytes impl       (* the same bytes were decoded and checked for this content *)
@@ -162,7 +173,7 @@ Inductive c12_case :=
   SIX (bg : N * N * N * N)            (* the handler's background (black, opaque when not configured) *)
       (parents : list (list (list spx)))
       (imgs : list (nat * option (nat * nat * nat * nat) * N))  (* parent number, crop, observed content hash *)
-      (draws : list (nat * list N)).
+      (draws : list dop).
 
 Definition c12_check (c : c12_case) : bool * bool :=
   match c with
